@@ -317,6 +317,18 @@ def run(case, rec):
         if rec.check(c3.ok, "no-exception", f"refine raised {common.exc_text(c3.exc) if c3.exc else ''}; {label}"):
             rec.check(all(d.radius > rho for d in c3.result), "size-filter",
                       f"refined result contains a droplet with radius <= {rho}: {[d.radius for d in c3.result]}; {label}")
+    if case["refine"] and len(cand) and bool(np.all(np.isfinite(data))):
+        # without a minimal radius nothing is filtered: every droplet of the binary image comes back, however the fit is
+        # configured (also when it is cut short after a few evaluations)
+        from pde import ScalarField as _SF
+
+        nf = int(3 + case["thr_seed"] % 4)
+        c4 = common.monitored(rec, "locate_droplets", droplets.locate_droplets, _SF(grid, np.asarray(data, float)), threshold=tau,
+                              minimal_radius=-np.inf, refine=True, refine_args={"least_squares_params": {"max_nfev": nf}})
+        if rec.check(c4.ok, "no-exception", f"refine with max_nfev={nf} raised {common.exc_text(c4.exc) if c4.exc else ''}; {label}"):
+            rec.check(len(c4.result) == len(cand), "size-filter",
+                      f"{len(cand)} droplets in the binary image, no minimal radius, but {len(c4.result)} come back when the fit is "
+                      f"limited to {nf} evaluations; {label}")
     removed = len(cand) - len(expect)
     rec.evaluated(nontrivial=len(cand) >= 2 or removed >= 1)
     rec.count(f"rule:{rule}|{geom.grid_label(spec)}")
